@@ -10,10 +10,11 @@ pub struct HedgeAd {
     svc: Option<Handles<Hedge<Inner>>>,
     w: Option<W>,
     blk: bool,
+    sib: Vec<Sibling>,
 }
 impl HedgeAd {
     pub fn new() -> Self {
-        HedgeAd { svc: None, w: None, blk: false }
+        HedgeAd { svc: None, w: None, blk: false, sib: vec![] }
     }
 }
 impl Adapter for HedgeAd {
@@ -21,7 +22,7 @@ impl Adapter for HedgeAd {
         "hedge"
     }
     fn gen_cfg(&mut self, rng: &mut Rng, _size: Size) -> Value {
-        json!({"hm": rng.below(4), "max": 1 + rng.below(4), "mode": *rng.pick(&["fixed", "fixed", "par", "dyn"]), "d": 1 + rng.below(3), "lazy": if rng.pct(30) { 1 } else { 0 }, "pre": rng.below(4), "ord": rng.below(2), "blk": if rng.pct(25) { 1 } else { 0 }})
+        json!({"hm": rng.below(4), "max": 1 + rng.below(4), "mode": *rng.pick(&["fixed", "fixed", "par", "dyn", "dyn0"]), "d": 1 + rng.below(3), "lazy": if rng.pct(30) { 1 } else { 0 }, "pre": rng.below(4), "ord": rng.below(2), "blk": if rng.pct(25) { 1 } else { 0 }, "sib": rng.below(2)})
     }
     fn build(&mut self, cfg: &Value, sim: &mut Sim) {
         // cfg.pre: an earlier, overridden delay setting of another kind (the last one wins); cfg.ord: the
@@ -41,6 +42,7 @@ impl Adapter for HedgeAd {
         b = match cfg["mode"].as_str().unwrap() {
             "fixed" => b.delay(Duration::from_millis(cfg["d"].as_u64().unwrap())),
             "par" => b.no_delay(),
+            "dyn0" => b.delay_fn(|k| if k == 1 { Duration::from_millis(2) } else { Duration::ZERO }),
             _ => b.delay_fn(|k| Duration::from_millis(if k == 1 { 2 } else { 1 })),
         };
         if late_max {
@@ -48,7 +50,14 @@ impl Adapter for HedgeAd {
         }
         // (parked handles are replenished while readiness is blocked: no parked mode together with blk)
         let hm = if cfg["blk"].as_u64().unwrap_or(0) == 1 && cfg["hm"].as_u64().unwrap_or(0) == 3 { 0 } else { cfg["hm"].as_u64().unwrap_or(0) };
-        self.svc = Some(Handles::new(b.build().layer(Inner::new(&sim.w)), hm));
+        let layer = b.build();
+        // cfg.sib = 1: a second hedging service built from the same layer value has calls of its own in flight
+        self.sib.clear();
+        if cfg["sib"].as_u64().unwrap_or(0) == 1 {
+            let w2 = sibling_world();
+            self.sib.push(sibling_traffic(layer.layer(Inner::new(&w2)), w2, 3));
+        }
+        self.svc = Some(Handles::new(layer.layer(Inner::new(&sim.w)), hm));
         // blk = 1: only the handle the caller drives to readiness becomes ready; every further clone of the
         // wrapped service (the hedges' clones) stays Pending in poll_ready for ever
         self.blk = cfg["blk"].as_u64().unwrap_or(0) == 1;
@@ -96,5 +105,6 @@ impl Adapter for HedgeAd {
     }
     fn teardown(&mut self) {
         self.svc = None;
+        self.sib.clear();
     }
 }
